@@ -29,7 +29,7 @@ RECURSIVE MaxOf(_)
 MaxOf(s) == IF Len(s) = 1 THEN s[1] ELSE LET m == MaxOf(Tail(s)) IN IF s[1] > m THEN s[1] ELSE m
 NMax(s) == Cardinality({i \in 1..Len(s) : s[i] = MaxOf(s)})
 Rows == UNION {[1..n -> Lat] : n \in 1..MaxRow}
-Targets == {Q0, Q1, <<1, 2>>}
+Targets == {Q0, Q1, <<1, 2>>, <<1, 4>>, <<3, 4>>, <<9, 10>>, <<1, 10>>}      \* hard, and soft / label-smoothed targets
 
 \* ---- elementwise ------------------------------------------------------------------
 Sig(x)  == IF x > 0 THEN Q1 ELSE IF x < 0 THEN Q0 ELSE <<1, 2>>
